@@ -539,6 +539,10 @@ func TestPropIntTextSiblings(t *testing.T) {
 		}
 		ten24, _ := new(big.Int).SetString("1000000000000000000000000", 10)
 		ns = append(ns, ten24, big.NewInt(0), big.NewInt(255), big.NewInt(493))
+		// integers whose big-endian bytes are themselves text
+		for _, txt := range []string{"ABCDEFGHI", "starlark!", "0123456789abc", "\x01\x00\x00\x00\x00\x00\x00\x00\x00"} {
+			ns = append(ns, new(big.Int).SetBytes([]byte(txt)))
+		}
 		i := 0
 		for _, n := range ns {
 			for _, neg := range []bool{false, true} {
@@ -554,6 +558,10 @@ func TestPropIntTextSiblings(t *testing.T) {
 				for _, base := range []int{10, 16, 8, 2, 36} {
 					txt := n.Text(base)
 					sib = append(sib, vStr(txt), vBytes(txt), vStr("-"+txt), vStr(strings.ToUpper(txt)))
+				}
+				sib = append(sib, vBytes(string(n.Bytes())))
+				if utf8.Valid(n.Bytes()) {
+					sib = append(sib, vStr(string(n.Bytes())))
 				}
 				sib = append(sib, vStr("0x"+n.Text(16)), vStr("0o"+n.Text(8)), vStr("0b"+n.Text(2)), vStr(x.String()), vFloat(1.5))
 				// the int first, last, and as a dict key / value beside its spellings
